@@ -332,3 +332,46 @@ pub fn compare_reader_mom(rep: &mut Report, orc: &mut Oracle, bytes: &[u8], orig
     }
   }
 }
+
+/// the sky-map reader beside its byte-level model (Model/FitsCodec.v sky_read): same error kind, or Ok
+/// with the same depth (the pixel values and the selection are judged by C20)
+pub fn compare_reader_sky(rep: &mut Report, orc: &mut Oracle, bytes: &[u8], origin: &str, what: &str) -> bool {
+  use moc::deser::fits::skymap::from_fits_skymap;
+  if bytes.len() >= 2 && bytes[0] == 0x1f && bytes[1] == 0x8b {
+    return true;
+  }
+  if !bytes.iter().take(5760.min(bytes.len())).all(|b| b.is_ascii()) {
+    return true; // a non-ASCII header byte: the string keywords go through from_utf8 in the implementation
+  }
+  rep.evaluations += 1;
+  let h: String = if bytes.is_empty() { "-".to_string() } else { bytes.iter().map(|x| format!("{:02x}", x)).collect() };
+  let model = orc.ask(&format!("SKYR {}", h));
+  let b = bytes.to_vec();
+  let got = catch(move || {
+    from_fits_skymap(std::io::BufReader::new(Cursor::new(b)), 0.0, 0.0, 0.9, false, true, false, false)
+      .map(|m| m.depth_max())
+      .map_err(|e| {
+        let d = format!("{:?}", e);
+        d.split(|c: char| !c.is_alphanumeric()).next().unwrap_or("").to_string()
+      })
+  });
+  rep.count(&format!("sky-reader:{}:{}", origin, model.split_whitespace().take(2).collect::<Vec<_>>().join(" ")));
+  let shown = format!("SKYR {}... ({} bytes) # origin={} mutation={}", h.chars().take(300).collect::<String>(), bytes.len(), origin, what);
+  match got {
+    Err(p) => {
+      rep.violation_c(&format!("from_fits_skymap does not return a value: {}", p), &format!("SKYR {} ({} bytes) # origin={} mutation={}", h, bytes.len(), origin, what), &p, &model, "C12 (decoders are total)", "");
+      false
+    }
+    Ok(g) => {
+      let gs = match &g {
+        Ok(d) => format!("OK {}", d),
+        Err(k) => format!("ERR {}", k),
+      };
+      if gs != model {
+        rep.corr_break("from_fits_skymap differs from the byte-level model of the reader (verdict)", &shown, &gs, &model, "src/deser/fits/skymap.rs header / row reader == Model/FitsCodec.v sky_read");
+        return false;
+      }
+      true
+    }
+  }
+}
